@@ -422,6 +422,9 @@ protected:
   inline void impl_unregister_callback(void* key)
   {
     unregister_calls++;
+    // (C13: the moment the back end is asked to release an entry point is a moment at which another thread may try to
+    //  register the same function)
+    if (verif_backend_hook) verif_backend_hook("be.unreg");
     for (uint32_t i = 0; i < MAX_CALLBACKS; i++) {
       if (callback_unique_keys[i] == key) {
         callback_unique_keys[i] = nullptr;
